@@ -44,7 +44,7 @@ Proof. exact offered_incompatible_qos_eq_spec. Qed.
 Theorem C33_inconsistent_topic_eq_spec :
   forall t p, dispatch_inconsistent_topic t p =
     map (fun c => (match fst c with Group => Participant | w => w end, snd c)) (spec_calls KIT t no_l p).
-Proof. intros t p. rewrite inconsistent_topic_eq_spec. apply spec_topic_is_rule. Qed.
+Proof. exact inconsistent_topic_is_rule. Qed.
 
 (* the same seven tables once more as an exhaustive enumeration of the 2^6 = 64 combinations
    (listener installed?, status enabled?) x three levels, evaluated by computation *)
@@ -104,6 +104,15 @@ Theorem C33_history_eq_spec_unless_known :
   forall c es, existsb (ev_known c) es = false -> run_events c es = spec_events c es.
 Proof. exact run_events_eq_spec. Qed.
 
+(* ... also when listeners and masks are replaced (set_listener) between the events *)
+Theorem C33_history_with_reconfiguration_eq_spec :
+  forall h, existsb (fun we => ev_known (fst we) (snd we)) h = false -> run_history h = spec_history h.
+Proof. exact run_history_eq_spec. Qed.
+
+Theorem C33_history_with_reconfiguration_calls_bounded :
+  forall h, (length (run_history h) <= length h)%nat.
+Proof. exact run_history_length. Qed.
+
 (* ---- exactly one or zero listener per status change, for every event of every history, known
    class or not *)
 Theorem C33_at_most_one_listener_per_event :
@@ -154,3 +163,5 @@ Print Assumptions C33_at_most_one_listener_per_event.
 Print Assumptions C33_history_calls_bounded.
 Print Assumptions C33_strict_reading_eq_unless_swallowed.
 Print Assumptions C33_swallowed_differs.
+Print Assumptions C33_history_with_reconfiguration_eq_spec.
+Print Assumptions C33_history_with_reconfiguration_calls_bounded.
